@@ -1,0 +1,32 @@
+//go:build verif
+
+package worker
+
+import (
+	"context"
+
+	"github.com/sassoftware/relic/v8/config"
+	"github.com/sassoftware/relic/v8/internal/activation/activatecmd"
+)
+
+// NewVerifClient builds the client side of a worker token without spawning a
+// worker subprocess: requests go to addr with the given cookie through
+// http.DefaultClient, exactly as for a real worker. Verification hook only.
+func NewVerifClient(cfg *config.Config, tokenName, addr, cookie string) (*WorkerToken, error) {
+	tconf, err := cfg.GetToken(tokenName)
+	if err != nil {
+		return nil, err
+	}
+	ctx, cancel := context.WithCancel(context.Background())
+	return &WorkerToken{
+		config:      cfg,
+		tconf:       tconf,
+		cookie:      cookie,
+		addr:        addr,
+		notify:      new(activatecmd.Listener),
+		ctx:         ctx,
+		cancel:      cancel,
+		procs:       make(map[int]struct{}),
+		procsExited: make(chan int, 10),
+	}, nil
+}
